@@ -156,6 +156,24 @@ def run_r2(ctx, rule):
         mentions(e, lambda x: x[0] == "f" and x[1] == ("l", 1) and x[2] not in ("pos_in_buf", "chunk_size", "complete") and not foreign.add(x[2]) and False)
     rule.check(not foreign, "request_more/realign-unconditional", "compaction depends on the consumed amount only (further reader state in the decision: %s)" % (sorted(foreign) or "none"), fn.loc(cwb))
     rule.check(bool(g), "request_more/realign-guard", "compaction is decided by comparing pos_in_buf with a multiple of chunk_size (%s)" % (guards.show_fact(fn, g[1]) if g else "not found"), fn.loc(cwb))
+    # every read of the source passes the compaction decision first: a second refill loop that reads without it (a
+    # helper that "only fills", used by one of the cold paths) lets the consumed prefix pile up for that consumer
+    nread = 0
+    for f2 in facts.fns.values():
+        if f2.crate != "flussab" or not norm(f2.id).startswith("flussab::deferred_reader"):
+            continue
+        for rb, t2 in f2.calls():
+            cn2 = norm(util.cname(t2))
+            if not (cn2.endswith("::read") and ("io::Read" in cn2 or "std::io" in cn2)):
+                continue
+            nread += 1
+            dec = None
+            if f2 is fn and g is not None:
+                dec = g[0]
+            okd = f2 is fn and dec is not None and (cfg(f2).dominates(dec, rb))
+            rule.check(okd, "%s/read-behind-compaction-decision" % norm(f2.id).rsplit("::", 1)[-1], "the source is read only behind the test that decides whether the consumed prefix is dropped (%s)" % ("in request_more" if f2 is fn else "read in %s, which never compacts" % short(norm(f2.id))), f2.loc(rb))
+    if not nread:
+        rule.bad("request_more/no-read", "anchor missing: no Read::read call in the reader", kind="anchor-missing")
     # destination 0 and window source
     t = fn.term(cwb)
     dest = sy.operand(t["args"][2]) if len(t["args"]) > 2 else None
